@@ -20,6 +20,7 @@ func checkC16(p *Prog, c *Check) {
 	c16Once(p, c)
 	c02Fired(p, c)
 	matchOperatorTable(p, c, "C02-R6.match")
+	absentValueRule(p, c, "C17-R8")
 	c16Loops(p, c)
 	// the sync loop the processors run in (shared with C15): the position is read only after a
 	// successful reorg check, ranges tile [start, end] exactly, rollbacks delete exactly what lies above
@@ -31,10 +32,12 @@ func checkC16(p *Prog, c *Check) {
 			c15Hash(p, c, sp)
 			c15ReorgParams(p, c, sp)
 			c15StartIsNext(p, c, sp)
+			reorgCheckAnchored(p, c, sp)
 		}
 	}
 	c15Ranges(p, c)
 	c16RangeIndependent(p, c)
+	upsertsMoveRows(p, c, "C15-R9", "insertEventTriggerRegisteredEvent")
 }
 
 var reTable = regexp.MustCompile(`(?i)\b(from|join|into|update)\s+([a-z_][a-z0-9_]*)`)
